@@ -212,6 +212,33 @@ where T: serde::de::DeserializeOwned + std::fmt::Debug + PartialEq {
     for (name, got) in [("from_slice", &sl), ("with_deserializer_from_str", &c1), ("with_deserializer_from_slice", &c2)] {
         if got != &s { o.fail("C09-str-family-disagree", &format!("{name} vs from_str, target {tname}"), bytes, got, &s); }
     }
+    // the same under tight budgets (document count, event count around the total): all entry points of the family agree
+    // on value / error kind / position under EVERY option vector, not only the default one
+    {
+        let nev = crate::pump::items_tokens(text).1;
+        let mut buds: Vec<serde_saphyr::budget::Budget> = Vec::new();
+        buds.push(serde_saphyr::budget::Budget { max_documents: 1, ..Default::default() });
+        for d in [0usize, 1, 2, 3] { if nev + 4 > d { buds.push(serde_saphyr::budget::Budget { max_events: nev + 4 - d, ..Default::default() }); } }
+        buds.push(serde_saphyr::budget::Budget { max_nodes: 1, ..Default::default() });
+        for b in buds {
+            let mk = || { let mut op = serde_saphyr::Options::default(); op.budget = Some(b.clone()); op };
+            let s2 = res_tok(&serde_saphyr::from_str_with_options::<T>(text, mk()));
+            let sl2 = res_tok(&serde_saphyr::from_slice_with_options::<T>(bytes, mk()));
+            let c12 = res_tok(&serde_saphyr::with_deserializer_from_str_with_options(text, mk(), |d| T::deserialize(d)));
+            let c22 = res_tok(&serde_saphyr::with_deserializer_from_slice_with_options(bytes, mk(), |d| T::deserialize(d)));
+            sink.count("oracle.str.budgeted");
+            let mut all = vec![("from_slice_with_options", sl2), ("with_deserializer_from_str_with_options", c12), ("with_deserializer_from_slice_with_options", c22)];
+            if reader_ok {
+                all.push(("from_reader_with_options", res_tok(&serde_saphyr::from_reader_with_options::<_, T>(std::io::Cursor::new(bytes.to_vec()), mk()))));
+                all.push(("with_deserializer_from_reader_with_options", res_tok(&serde_saphyr::with_deserializer_from_reader_with_options(std::io::Cursor::new(bytes.to_vec()), mk(), |d| T::deserialize(d)))));
+            }
+            for (name, got) in all {
+                if got != s2 && !bytes.contains(&0) && !empty_tag_suffix(bytes) && !text.starts_with("\u{feff}\u{feff}") {
+                    o.fail("C09-family-disagrees-under-budget", &format!("{name} vs from_str_with_options (budget {b:?}), target {tname}"), bytes, &got, &s2);
+                }
+            }
+        }
+    }
     if !reader_ok { return; }
     let double_bom = text.starts_with("\u{feff}\u{feff}");
     for (sname, sizes, rest) in scheds {
@@ -388,6 +415,9 @@ fn corpus_docs(rng: &mut Rng, thorough: bool) -> Vec<Vec<u8>> {
         // U+0000 in the text: the external scanner's string input takes NUL for the end of the input, its buffered (reader)
         // input keeps reading — class C09-nul-ends-string-input
         "---\0", "# c\0...", "a: 1\0\nb: x", "a\0b", "- x\0\n- y\n", "k: \"q\0r\"\n",
+        // CRLF / lone CR / mixed breaks with NO final line break and the error (or the closing mark) at the end of the input:
+        // the reader's own account of lines (one break per CRLF pair) places the scanner's closing mark
+        "# x\r\n# y", "---\r\n# y", "a: 1\r\nb: 2\r\n---\r\n# y", "# x\r# y", "# x\r\n\r\n# y", "a: 1\r\n# c\r\n[", "k: [1\r\n# é", "x\r\n---\r\n", "# x\r\n# y\r", "# x\n\r# y",
         "#é\n[", "# é\n]", "a: 1 # é\n]", "#é\n---\n[", "%?é,\n}", "#é\r[x", "a: [1\r\n# é\r]", "# é", "k: 1 # é\n# €😀", "#é\n&x", "#é\nk: &a", "a\n...\n%x é"] {
         v.push(s.as_bytes().to_vec());
         // with one / two byte-order marks in front
